@@ -64,6 +64,7 @@ type Conn struct {
 	MaxReadLen int
 	OnWrite    func(p []byte) // called for every Write call, before any fault
 	OnRead     func(n int)
+	Quiet      func() bool // when it returns true no planned or random fault is injected
 }
 
 func sysErr(op string, errno syscall.Errno) error {
@@ -81,6 +82,9 @@ func Pipe(s *simrt.Sim, name string, epA, epB EP) (*Conn, *Conn) {
 }
 
 func (c *Conn) planned(op int) string {
+	if c.Quiet != nil && c.Quiet() {
+		return ""
+	}
 	for _, f := range c.EP.Plan {
 		if f.Op == op {
 			return f.Kind
@@ -91,7 +95,7 @@ func (c *Conn) planned(op int) string {
 
 func (c *Conn) rate(kind string) bool {
 	pm := c.EP.Rates[kind]
-	if pm <= 0 {
+	if pm <= 0 || (c.Quiet != nil && c.Quiet()) {
 		return false
 	}
 	return c.S.Chance(pm, 1000)
